@@ -9,6 +9,8 @@ from . import env, findings
 from .snapshot import canon
 
 MAX_VIOLATION_LINES = 20
+MAX_REPRODUCED = 30          # violation classes beyond this are written out without the double replay
+MAX_REPLAY_FILES = 200
 
 
 def failure(check, desc, case, observed=None, expected=None, explain=""):
@@ -101,7 +103,7 @@ class Run(object):
             rec = dict(f)
             rec["property"] = self.prop
             rec["cases_in_class"] = self.class_counts[k]
-            if reproduce is not None:
+            if reproduce is not None and n_viol < MAX_REPRODUCED:
                 again = []
                 for _ in range(2):
                     try:
@@ -113,12 +115,14 @@ class Run(object):
                         again.append(["<replay raised %s: %s>" % (type(exc).__name__, exc)])
                 rec["reproduced"] = [k in a for a in again]
                 rec["replays_identical"] = again[0] == again[1]
+            n_viol += 1
+            if n_viol > MAX_REPLAY_FILES:
+                continue
             os.makedirs(replay_dir, exist_ok=True)
             name = hashlib.sha1(k.encode()).hexdigest()[:12] + ".json"
             path = os.path.join(replay_dir, name)
             with open(path, "w") as fh:
                 json.dump(rec, fh, indent=1, sort_keys=True, default=repr)
-            n_viol += 1
             if n_viol <= MAX_VIOLATION_LINES:
                 lines.append("VIOLATION property=%s replay=%s" % (self.prop, path))
                 lines.append("  # %s %s :: %s" % (f["check"], canon(f["desc"])[:300],
